@@ -1567,7 +1567,8 @@ def _t_eval(target, _t, scope):
     pae = None
     while i < fetch_till:
         op, arg = t_path[i], t_path[i + 1]
-        arg = arg_val(target, arg, scope)
+        if op != '(':  # (the arguments of a call step are evaluated by the Call below, once)
+            arg = arg_val(target, arg, scope)
         if op == '.':
             try:
                 cur = getattr(cur, arg)
@@ -1614,8 +1615,10 @@ def _t_eval(target, _t, scope):
         elif op == '(':
             args, kwargs = arg
             scope[Path] += t_path[2:i+2:2]
+            # (cur is a value to be called, whatever it is: not None-means-the-target,
+            # not a spec to evaluate)
             cur = scope[glom](
-                target, Call(cur, args, kwargs), scope)
+                target, Call(Spec(Val(cur)), args, kwargs), scope)
             # call with target rather than cur,
             # because it is probably more intuitive
             # if args to the call "reset" their path
